@@ -177,6 +177,11 @@ func (e *explorer) runDef(fam string, def m.Def, inputs []string) {
 				w.Sample(map[string]any{"definition": def.String(), "input": in, "tokens": len(r.Toks)})
 			}
 		case "C04":
+			if r.Panicked == "" && r.Err == nil && r.Extra != "" {
+				// an empty token or a token stream that does not end: offsets are not strictly increasing
+				w.Violate(hx.Violation{Key: key(fam, def, in), Class: "position-or-text", Detail: map[string]any{"what": r.Extra}})
+				continue
+			}
 			if r.Panicked != "" || r.Err != nil || r.EOF == nil || r.Extra != "" {
 				w.Count("inputs_not_lexed_successfully", 1)
 				continue
